@@ -172,6 +172,14 @@ def _exec_contagion(case, stats, traces):
     head = []
     for idx, (b, bD, mu) in enumerate(case["triples"]):
         h = _gen.build_hypergraph(spec, weights=case.get("weights"), weighted=bool(case.get("weights")))
+        if case["seed"] % 4 == 0 and len(spec["edges"]) >= 1:
+            # somebody else works on a COPY of the input (removes a hyperedge, adds one): the original is what is simulated
+            c = h.copy()
+            c.remove_edge(tuple(spec["edges"][0]))
+            extra = [x for x in spec["nodes"]][:3]
+            if len(extra) >= 2 and all(set(extra) != set(e) for e in spec["edges"][1:]):
+                c.add_edge(tuple(extra), **({"weight": 2} if case.get("weights") else {}))
+            stats["copies_edited_before_run"] = stats.get("copies_edited_before_run", 0) + 1
         I0 = {n: (1 if n in case["infected"] else 0) for n in nodes}
         I0_copy = dict(I0)
         fac = Facade(derive(case["seed"], "triple", idx), q=case["q"], stretch=case["pin"])
@@ -224,14 +232,22 @@ def _exec_walk(case, stats, traces):
     spec = case["spec"]
     wts = case.get("weights")
     h = _gen.build_hypergraph(spec, weights=wts, weighted=bool(wts))
+    if case["seed"] % 4 == 1 and len(spec["edges"]) >= 1:
+        c = h.copy()  # a copy is edited; the walk is defined on the original
+        c.remove_edge(tuple(spec["edges"][-1]))
+        c.add_node("extra-node")
+        stats["copies_edited_before_run"] = stats.get("copies_edited_before_run", 0) + 1
     edges = [list(e) for e in spec["edges"]]
     head = _walk_state(case, h, {"nodes": spec["nodes"], "edges": edges}, stats, traces, 0)
     for idx, (old, new) in enumerate(case.get("rewires", []), start=1):
-        h.remove_edge(tuple(old))
-        if wts:
-            h.add_edge(tuple(new), weight=wts[len(spec["edges"]) + idx - 1])
-        else:
-            h.add_edge(tuple(new))
+        try:
+            h.remove_edge(tuple(old))
+            if wts:
+                h.add_edge(tuple(new), weight=wts[len(spec["edges"]) + idx - 1])
+            else:
+                h.add_edge(tuple(new))
+        except Exception as e:  # noqa: a legal in-place edit of the input that the library refuses
+            raise Violation("C18/walk/rewire-raised", {"exception": repr(e), "removed": short(old), "added": short(new), "phase": idx})
         edges = [e for e in edges if set(e) != set(old)] + [list(new)]
         _walk_state(case, h, {"nodes": spec["nodes"], "edges": edges}, stats, traces, idx)
         stats["requeries_after_rewire"] = stats.get("requeries_after_rewire", 0) + 1
